@@ -15,3 +15,26 @@ package sfnt
 //@   loop 0
 //@     invariant forall s string :: used[s] == old(used[s])
 //@     decreases *
+
+// ---- subsetting ----
+// The subsetter maintains a bijection between s.glyphs (new gid -> old gid)
+// and s.newGid (old gid -> new gid).
+//@ pred bij(s *subsetter) = s != nil && s.newGid != nil && len(s.glyphs) <= 65536 && (forall i int :: 0 <= i && i < len(s.glyphs) ==> has(s.newGid, s.glyphs[i]) && s.newGid[s.glyphs[i]] == i) && (forall g uint16 :: has(s.newGid, g) ==> s.newGid[g] < len(s.glyphs)) && (forall g uint16 :: has(s.newGid, g) ==> s.glyphs[s.newGid[g]] == g)
+
+//@ func pop(todo map[glyph.ID]bool) (key glyph.ID)   props: C10
+//@   requires todo != nil && len(todo) > 0
+//@   ensures old(has(todo, key)) && !has(todo, key) && len(todo) == old(len(todo)) - 1
+//@   ensures forall g uint16 :: g != key ==> has(todo, g) == old(has(todo, g))
+//@   modifies todo[*]
+//@   loop 0
+//@     invariant len(todo) == old(len(todo)) && forall g uint16 :: has(todo, g) == old(has(todo, g))
+
+//@ func (s *subsetter) getNewGid(oldGid glyph.ID) (newGid glyph.ID)   props: C10
+//@   requires bij(s) && len(s.glyphs) < 65536
+//@   ensures bij(s) && has(s.newGid, oldGid) && s.newGid[oldGid] == newGid
+//@   ensures old(has(s.newGid, oldGid)) ==> len(s.glyphs) == old(len(s.glyphs)) && newGid == old(s.newGid[oldGid])
+//@   ensures !old(has(s.newGid, oldGid)) ==> len(s.glyphs) == old(len(s.glyphs)) + 1 && newGid == old(len(s.glyphs))
+//@   ensures forall i int :: 0 <= i && i < old(len(s.glyphs)) ==> s.glyphs[i] == old(s.glyphs[i])
+//@   modifies s.glyphs, s.glyphs[*], s.newGid[*]
+//@   ensures !old(has(s.newGid, oldGid)) ==> s.glyphs[len(s.glyphs)-1] == oldGid
+//@   ensures !old(has(s.newGid, oldGid)) ==> forall g uint16 :: g != oldGid && has(s.newGid, g) ==> s.newGid[g] == old(s.newGid[g]) && old(has(s.newGid, g))
